@@ -353,6 +353,27 @@ def _guess_failures(n, seed):
         if not (np.isclose(half[0] * 2, half[2], rtol=1e-9) and np.isclose(half[1] * 2, half[2], rtol=1e-9)):
             fails.append({'id': f'case{i}', 'index': i, 'seed': seed, 'problem': f'value at loc +- fwhm/2 is not half the peak value: {half.tolist()}'})
             continue
+        # fwhm() is given ALL fitted parameters in practice (fit_peaks passes popt): the parameters of other models in the same
+        # dictionary -- other prefixes of the same or another length, listed before or after -- must not matter
+        if pf:
+            own = {pf + k: v for k, v in params.items()}
+            for other_pf in (pf[:-1] + ('X' if pf[-1] != 'X' else 'Y'), 'zz_' + pf, pf + 'q_'):
+                other = {other_pf + k: v * 7.0 for k, v in params.items() if k != 'fraction'}
+                for merged in ({**own, **other}, {**other, **own}):
+                    try:
+                        fw2 = m.fwhm(merged)
+                    except Exception as e:
+                        fw2 = None
+                        fails.append({'id': f'case{i}', 'index': i, 'seed': seed, 'problem': f'fwhm raised {type(e).__name__} when given the parameters of another model ({other_pf!r}) too'})
+                        break
+                    if not sc.identical(fw2, fw):
+                        fails.append({'id': f'case{i}', 'index': i, 'seed': seed, 'problem': f'fwhm depends on the parameters of another model with prefix {other_pf!r}: {fw2.value} vs {fw.value}'})
+                        break
+                else:
+                    continue
+                break
+            if fails and fails[-1].get('index') == i:
+                continue
         # polynomial background of random degree against numpy
         deg = int(rng.integers(1, 7))
         pm = mm.PolynomialModel(degree=deg, prefix=pf)
